@@ -67,7 +67,7 @@ def meta(tier):
                 'containing a symbol name) x definition source of each defined symbol in {ISA, -D, #define} x use-line token pairs '
                 '(written once before and once after the #define block, as `.byte t1, t2`, through `T = t1` and as the operand of `ldi b, t2`); plus every '
                 'double definition across and within sources; replacement texts with backslash escapes (5 strings x 3 sources x chains of 0..2 intermediate '
-                'symbols) used in .cstr / .byte; symbols without a value (3 sources x chains) in 7 lines that stay well-formed when the name disappears; non-trivial = table with a chain/diamond/cycle or a use line that '
+                'symbols) used in .cstr / .byte; 2..33 occurrences of one symbol on a line / in a replacement text; symbols without a value (3 sources x chains) in 7 lines that stay well-formed when the name disappears; non-trivial = table with a chain/diamond/cycle or a use line that '
                 'mixes a symbol with an identifier containing its name; states = distinct (table, sources) pairs',
         'bounds': {'symbols': SYMS, 'values': {k: [None if v is None else ' '.join(v) for v in vs] for k, vs in VALUES.items()},
                    'containing_identifiers': CONSTS, 'use_tokens': [' '.join(t) for t in USE_TOKENS],
@@ -182,7 +182,8 @@ def shard(acc, tier, idx, n):
                 acc.violation([case], spec, msg, [out])
             acc.judge(clause='double-definition-rejected', nontrivial_key=('dd', s1, s2, v1, v2))
     ctr = string_replacements(acc, idx, n, ctr)
-    empty_replacements(acc, idx, n, ctr)
+    ctr = empty_replacements(acc, idx, n, ctr)
+    many_occurrences(acc, idx, n, ctr)
 
 
 # replacement texts that carry backslashes (string escapes): copied verbatim, whatever the source and through chains
@@ -244,6 +245,34 @@ def empty_replacements(acc, idx, n, ctr0):
         if msg:
             acc.violation([case], spec, f'symbol without a value ({src}, chain {chain}) in {line.strip()!r}: {msg}', [out])
         acc.judge(clause='empty-replacement', nontrivial_key=('empty', src, chain, line))
+    return ctr
+
+
+def many_occurrences(acc, idx, n, ctr0):
+    """Every occurrence is replaced, however many there are on one line or in one replacement text."""
+    ctr = ctr0
+    for src, count, where in itertools.product(SOURCES, (2, 8, 9, 10, 17, 33), ('line', 'value')):
+        ctr += 1
+        if ctr % n != idx:
+            continue
+        if where == 'line':
+            table = {'MV': '5'}
+            use = '    .byte ' + ', '.join(['MV'] * count)
+        else:
+            table = {'MV': '5', 'ROW': ', '.join(['MV'] * count)}
+            use = '    .byte ROW'
+        isa_syms = [{'name': k, 'value': v} for k, v in table.items()] if src == 'isa' else []
+        cli = [f'{k}={v}' for k, v in table.items()] if src == 'cli' else []
+        lines = [f'#define {k} {v}' for k, v in table.items()] if src == 'define' else []
+        lines += [use, '    .byte $EE']
+        case = Case(probe_isa(16, 'little', symbols=isa_syms or None), '\n'.join(lines) + '\n', defines=cli)
+        out = acc.run(case)
+        acc.transition()
+        spec = {'expect': 'OK', 'image_hex': bytes([5] * count + [0xEE]).hex(), 'source': src, 'occurrences': count, 'where': where}
+        msg = judge_expect(spec, [out])
+        if msg:
+            acc.violation([case], spec, f'{count} occurrences of one symbol in one {where} ({src}): {msg}', [out])
+        acc.judge(clause='substituted', nontrivial_key=('many', src, count, where))
     return ctr
 
 
